@@ -14,7 +14,8 @@
 //	                                                  real pass is run, and the derived sp (or ex) line with the measured
 //	                                                  sizes is what goes to the Lean side
 //	      item = pkg,name,hexfile,d|f,bytes,atimeSecondsAgo,nested 0|1,mark 0|1|2|3,hexkey
-//	      mark: 1 retrieved before the pass, 2 stored before the pass, 3 retrieved DURING the pass (after the walk)
+//	      mark: 1 retrieved before the pass, 2 stored before the pass, 3 retrieved DURING the pass (after the walk, before the loop),
+//	            4 retrieved in the window between the loop's isMarked test of that very entry and its rename
 //
 // found   = hexpath:size:atime,…   every entry shouldClean recognises, with the size the walk measures
 // marks   = hexpath:size,…         cache.added restricted to those paths
@@ -168,7 +169,7 @@ type item struct {
 	Bytes     int   // content bytes (a directory gets one file of that size, plus maybe a nested key-like directory)
 	Atime     int64 // seconds before "now"
 	Nested    bool  // plain mode: put a key-like subdirectory inside the entry (must not be cleaned on its own)
-	Mark      int   // 0 none, 1 marked by a real Retrieve (recorded size 0), 2 stored by a real Store (recorded size), 3 retrieved during the pass
+	Mark      int   // 0 none, 1 retrieved before, 2 stored before, 3 retrieved after the walk, 4 retrieved in its own test-to-rename window
 	Key       []byte
 }
 
@@ -229,17 +230,26 @@ func runLayout(r *lib.Run, layLine string, compress bool, items []item, hi, lo u
 	if len(ms) > 0 {
 		markS = strings.Join(ms, ",")
 	}
-	// entries retrieved while the cleaner is suspended between its walk (and sort) and its eviction loop
-	late := map[string]bool{}
+	// entries retrieved while the cleaner is suspended between its walk (and sort) and its eviction loop (mark 3), or in
+	// the window between the loop's isMarked test of that entry and its rename (mark 4)
+	late, window := map[string]bool{}, map[string]bool{}
 	var lateS []string
+	pathOf := func(it item) string { return filepath.Join(dir, it.Pkg, it.Name, it.File) }
 	cache.VerifOpHook = func(o, path string) {
-		if o != "clean-sorted" || path != dir {
-			return
-		}
-		for _, it := range items {
-			if it.Mark == 3 {
-				tg := core.NewBuildTarget(core.ParseBuildLabel("//"+it.Pkg+":"+it.Name, ""))
-				c.Retrieve(tg, it.Key, nil)
+		switch {
+		case o == "clean-sorted" && path == dir:
+			for _, it := range items {
+				if it.Mark == 3 {
+					c.Retrieve(core.NewBuildTarget(core.ParseBuildLabel("//"+it.Pkg+":"+it.Name, "")), it.Key, nil)
+				}
+			}
+		case o == "clean-evict":
+			for _, it := range items {
+				if it.Mark == 4 && pathOf(it) == path {
+					c.Retrieve(core.NewBuildTarget(core.ParseBuildLabel("//"+it.Pkg+":"+it.Name, "")), it.Key, nil)
+					rel, _ := filepath.Rel(dir, path)
+					window[rel] = true
+				}
 			}
 		}
 	}
@@ -247,7 +257,7 @@ func runLayout(r *lib.Run, layLine string, compress bool, items []item, hi, lo u
 	cache.VerifOpHook = nil
 	marksAfter := c.MarkedForVerif()
 	for _, e := range before {
-		if _, ok := marksAfter[filepath.Join(dir, e.rel)]; ok && !marked[e.rel] {
+		if _, ok := marksAfter[filepath.Join(dir, e.rel)]; ok && !marked[e.rel] && !window[e.rel] {
 			late[e.rel] = true
 			lateS = append(lateS, hx(e.rel))
 		}
@@ -310,6 +320,10 @@ func runLayout(r *lib.Run, layLine string, compress bool, items []item, hi, lo u
 		}
 		if evSet[e.rel] && late[e.rel] {
 			fail("entry-marked-during-pass-evicted", e.rel+" was retrieved after the walk and before the eviction loop, and was evicted")
+		}
+		if evSet[e.rel] && window[e.rel] {
+			// marked (markDir had returned) before the rename, removed all the same: the test and the rename are not atomic
+			r.OracleFail("entry-marked-between-test-and-rename-evicted", layLine, e.rel+" was retrieved after the loop's isMarked test and before its rename, and was evicted")
 		}
 	}
 	// whole entries only: everything that disappeared lies at or below an evicted entry, and all of it went;
@@ -376,6 +390,9 @@ func runLayout(r *lib.Run, layLine string, compress bool, items []item, hi, lo u
 	if len(late) > 0 {
 		r.Count("layout:has-late-mark")
 	}
+	if len(window) > 0 {
+		r.Count("layout:retrieve-in-evict-window")
+	}
 	r.Count("evicted:" + strconv.Itoa(min(len(evSet), 6)))
 	os.RemoveAll(dir)
 	return op, impl
@@ -398,7 +415,9 @@ func runInflight(r *lib.Run, op string, compress bool, k int) string {
 	n := 0
 	reached, resume := make(chan struct{}), make(chan struct{})
 	cache.VerifOpHook = func(o, path string) {
-		if strings.HasPrefix(o, "retr-") || !strings.Contains(path, "/"+pkg+"/") {
+		// only the Store's own operations count: not the retrieve's, and not the pause points of the cleaner that runs
+		// while the Store is suspended
+		if strings.HasPrefix(o, "retr-") || strings.HasPrefix(o, "clean-") || !strings.Contains(path, "/"+pkg+"/") {
 			return
 		}
 		if n == k {
@@ -513,7 +532,7 @@ func parseItems(s string) ([]item, bool) {
 		by, e1 := strconv.Atoi(q[4])
 		at, e2 := strconv.ParseInt(q[5], 10, 64)
 		mk, e3 := strconv.Atoi(q[7])
-		if !ok1 || !ok2 || e1 != nil || e2 != nil || e3 != nil || by < 0 || mk < 0 || mk > 3 || file == "" ||
+		if !ok1 || !ok2 || e1 != nil || e2 != nil || e3 != nil || by < 0 || mk < 0 || mk > 4 || file == "" ||
 			strings.ContainsAny(q[0]+q[1], "/. ") || q[0] == "" || q[1] == "" || strings.Contains(file, "/") {
 			return nil, false
 		}
